@@ -573,6 +573,18 @@ XalanDOMString::insert(
 
         assign(theFirstPosition, theLastPosition);
     }
+    else if (theFirstPosition != theLastPosition &&
+             theFirstPosition >= m_data.begin() &&
+             theFirstPosition < m_data.end())
+    {
+        // The source is part of this string: copy it first, because the
+        // vector moves the tail over it before it reads the source.
+        const XalanDOMCharVectorType    theTemp(theFirstPosition, theLastPosition, getMemoryManager());
+
+        m_data.insert(theInsertPosition, theTemp.begin(), theTemp.end());
+
+        m_size = size_type(m_data.size()) - 1;
+    }
     else
     {
         m_data.insert(theInsertPosition, theFirstPosition, theLastPosition);
